@@ -10,6 +10,7 @@ mod director;
 mod layout;
 mod node;
 mod rec;
+mod threads;
 mod world;
 
 use serde_json::{json, Value};
@@ -132,11 +133,20 @@ fn main_random(args: &[String]) {
     let out = arg(args, "--out").expect("--out");
     let mut f = BufWriter::new(std::fs::File::create(&out).expect("create out"));
     let mut total = 0usize;
-    for run in 0..runs {
-        let lines = on_fresh_thread(move || random_run::<()>(seed, run, ops, ns, np, nw, faultp, maxobjs, auto, clean));
-        total += lines.len();
-        for l in lines {
-            writeln!(f, "{}", l).unwrap();
+    let par: u64 = arg_num(args, "--par", 1);
+    let mut run = 0;
+    while run < runs {
+        // `par` runs at a time on concurrent threads (free-running: the OS scheduler interleaves them)
+        let hs: Vec<_> = (run..(run + par).min(runs))
+            .map(|r| std::thread::Builder::new().stack_size(4 << 20).spawn(move || random_run::<()>(seed, r, ops, ns, np, nw, faultp, maxobjs, auto, clean)).expect("spawn"))
+            .collect();
+        run += par;
+        for h in hs {
+            let lines = h.join().expect("harness thread panicked");
+            total += lines.len();
+            for l in lines {
+                writeln!(f, "{}", l).unwrap();
+            }
         }
     }
     f.flush().unwrap();
@@ -377,6 +387,33 @@ fn main() {
             }
             f.flush().unwrap();
             println!("{}", json!({"mode": "layout", "runs": n, "events": lines.len(), "build": build_flags()}));
+        }
+        Some("threads") => {
+            // schedules enumerated by TLC (spec/Threads.tla), one JSON object per line
+            let inp = arg(&args, "--in").expect("--in");
+            let out = arg(&args, "--out").expect("--out");
+            let rdr = std::io::BufReader::new(std::fs::File::open(&inp).expect("open in"));
+            let mut f = BufWriter::new(std::fs::File::create(&out).expect("create out"));
+            let (mut n, mut ev, mut traces) = (0u64, 0usize, 0u64);
+            for line in rdr.lines() {
+                let line = line.unwrap();
+                if line.trim().is_empty() {
+                    continue;
+                }
+                let s: Value = serde_json::from_str(&line).expect("schedule json");
+                let per_thread = threads::run_schedule(&s, n * 16);
+                n += 1;
+                for t in per_thread {
+                    traces += 1;
+                    ev += t.len();
+                    for l in t {
+                        writeln!(f, "{}", l).unwrap();
+                    }
+                }
+            }
+            f.flush().unwrap();
+            let (late, late_bad) = alloc::late_frees();
+            println!("{}", json!({"mode": "threads", "schedules": n, "runs": traces, "events": ev, "late_frees": late, "late_double_frees": late_bad, "build": build_flags()}));
         }
         Some("ptr") => {
             // pointer tables: --in file with the JSON table printed by TLC from PtrSpec.tla
